@@ -44,17 +44,27 @@ func (vxPSLog) Error(msg string, args ...interface{}) {}
 
 type vxPSCore struct{}
 
+var (
+	vxPSNsA = &namespace.Namespace{ID: "a", UUID: "ua", Path: "a/"}
+	vxPSNsB = &namespace.Namespace{ID: "b", UUID: "ub", Path: "b/"}
+)
+
 func (vxPSCore) NamespaceByID(ctx context.Context, id string) (*namespace.Namespace, error) {
-	if id == namespace.RootNamespaceID {
+	switch id {
+	case namespace.RootNamespaceID:
 		return namespace.RootNamespace, nil
+	case "a":
+		return vxPSNsA, nil
+	case "b":
+		return vxPSNsB, nil
 	}
 	return nil, nil
 }
 func (vxPSCore) IdentityStore() *vaultidentity.IdentityStore           { return nil }
-func (vxPSCore) NamespaceView(ns *namespace.Namespace) barrier.View    { return vxPSV }
+func (vxPSCore) NamespaceView(ns *namespace.Namespace) barrier.View    { return vxPSNS(ns) }
 func vxPSLockIndex(key string) uint8                                   { return 0 }
-func vxPSView(ps *Store, ns *namespace.Namespace, _ Type) barrier.View { return vxPSV }
-func vxPSACLView(ps *Store, ns *namespace.Namespace) barrier.View      { return vxPSV }
+func vxPSView(ps *Store, ns *namespace.Namespace, _ Type) barrier.View { return vxPSNS(ns) }
+func vxPSACLView(ps *Store, ns *namespace.Namespace) barrier.View      { return vxPSNS(ns) }
 func vxPSEncodeJSON(in interface{}) ([]byte, error)                    { return vxBox(in), nil }
 func vxPSDecodeJSON(data []byte, out interface{}) error {
 	if !vxUnbox(data, out) {
@@ -70,6 +80,53 @@ func vxParseACL(ns *namespace.Namespace, rules string) (*Policy, error) {
 		caps |= UpdateCapabilityInt
 	}
 	return &Policy{Raw: rules, Type: TypeACL, Namespace: ns, Paths: []*PathRules{vxMkRule("secret/foo", caps)}}, nil
+}
+
+// every namespace has its own policy view over the one store; like the real barrier view it refuses relative keys
+type vxPSNSView struct {
+	barrier.View
+	pfx string
+}
+
+func vxPSNS(ns *namespace.Namespace) barrier.View {
+	if ns == nil || ns.ID == namespace.RootNamespaceID {
+		return vxPSV
+	}
+	return &vxPSNSView{pfx: "ns-" + ns.UUID + "/"}
+}
+func vxPSRelative(k string) bool {
+	start := 0
+	for i := 0; i <= len(k); i++ {
+		if i == len(k) || k[i] == '/' {
+			if seg := k[start:i]; seg == "." || seg == ".." {
+				return true
+			}
+			start = i + 1
+		}
+	}
+	return false
+}
+func (v *vxPSNSView) Get(ctx context.Context, k string) (*logical.StorageEntry, error) {
+	if vxPSRelative(k) {
+		return nil, vxErr("relative paths not supported")
+	}
+	e, err := vxPSV.Get(ctx, v.pfx+k)
+	if e != nil {
+		e.Key = k
+	}
+	return e, err
+}
+func (v *vxPSNSView) Put(ctx context.Context, e *logical.StorageEntry) error {
+	if vxPSRelative(e.Key) {
+		return vxErr("relative paths not supported")
+	}
+	return vxPSV.Put(ctx, &logical.StorageEntry{Key: v.pfx + e.Key, Value: e.Value})
+}
+func (v *vxPSNSView) Delete(ctx context.Context, k string) error {
+	if vxPSRelative(k) {
+		return vxErr("relative paths not supported")
+	}
+	return vxPSV.Delete(ctx, v.pfx+k)
 }
 
 // storage model with one scheduling point: right after a read produced its result
